@@ -2,6 +2,7 @@ use crate::{
     core::prelude::*,
     errors::prelude::*,
     extensions::prelude::*,
+    validators::prelude::*,
 };
 
 /// `ArrayTrait` - Array Count functions
@@ -37,6 +38,7 @@ impl <T: ArrayElement> ArrayCount<T> for Array<T> {
     fn count_nonzero(&self, axis: Option<isize>, keepdims: Option<bool>) -> Result<Array<usize>, ArrayError> {
         if let Some(axis) = axis {
             let axis = self.normalize_axis(axis);
+            self.axis_in_bounds(axis)?;
             let result = self.apply_along_axis(axis, |arr| arr.count_nonzero(None, keepdims));
             if keepdims == Some(true) { result }
             else { result.reshape(&self.get_shape()?.remove_at(axis)) }
